@@ -4,6 +4,7 @@ import (
 	"context"
 	"fmt"
 	"github.com/bartossh/Computantis/src/transaction"
+	"os"
 	"sync"
 	"sync/atomic"
 	"time"
@@ -1011,6 +1012,62 @@ func c08CrossTrafficWhileJoining(w *core.WorkerCtx) {
 	}
 }
 
+// c08FailedBackgroundTruncation: the node's own truncation loop runs a truncation that fails (the backup file cannot
+// be created: its name is taken by a directory). The failure is the loop's business; the seventy proposals, the
+// gossiped vertices and the reads that follow must all return.
+func c08FailedBackgroundTruncation(w *core.WorkerCtx) {
+	rng := core.Rand(w.Seed, "C08f", w.Batch)
+	desc := fmt.Sprintf("c08 failing truncation in the node's own loop (Config.Truncate=2000, backup name taken by a directory) seed=%d batch=%d", w.Seed, w.Batch)
+	w.Mark("%s", desc)
+	world := ledger.NewWorld(rng, w.R, []string{"C08"}, 0, desc)
+	world.TruncateAt = 2000
+	_, err := ledger.Setup(world, ledger.Profile{Nodes: 1, Users: 4, SupplyClass: 0, Delivery: "lockstep"})
+	if err != nil {
+		w.R.Inconc("setup failed: " + err.Error())
+		return
+	}
+	e := &c08env{w: w, world: world, n: world.Nodes[0]}
+	world.Quiet = true
+	for i := 0; i < 1015; i++ {
+		t := world.NewTrx(world.Users[0], world.Users[1+i%3].Addr, spice.Melange{SupplementaryCurrency: uint64(1 + i%7)}, nil)
+		world.Propose(e.n, &t, "grow")
+	}
+	// every backup name the loop may try next is taken
+	var blocked []string
+	for k := 0; k < 4; k++ {
+		name := fmt.Sprintf("vertex_db_backup_%d.bak", k)
+		os.Remove(name) // (a backup file of an earlier scenario of this worker)
+		if os.Mkdir(name, 0o755) == nil {
+			blocked = append(blocked, name)
+		}
+	}
+	defer func() {
+		for _, b := range blocked {
+			os.Remove(b)
+		}
+	}()
+	tip, _ := e.tipAndAncestors()
+	ht := world.NewTrx(world.Users[0], world.Users[1].Addr, spice.Melange{SupplementaryCurrency: 3}, nil)
+	hv := ledger.ForgeVertex(world.Sealers[0], ht, tip, tip, 3600, world.Now())
+	e.watch("AddLeaf of the vertex that wakes the truncation loop", func() { e.n.Book.AddLeaf(context.Background(), ledger.CloneVertex(&hv)) })
+	done := 0
+	for i := 0; i < 70 && !e.dead; i++ {
+		w.Mark("failed background truncation: follow-up write %d", i)
+		if e.grow(false) {
+			done++
+		}
+	}
+	if !e.dead {
+		e.watch("CalculateBalance after the failed truncation", func() { e.n.Book.CalculateBalance(context.Background(), world.Users[1].Addr) })
+	}
+	w.R.Eval(1)
+	w.R.Count("c08_failed_background_truncation_followup_writes", done)
+	w.R.Nontriv(fmt.Sprintf("failed-background-truncation/blocked-names=%d/wedged=%v", len(blocked), e.dead))
+	if !e.dead {
+		world.Close()
+	}
+}
+
 func c08Worker(w *core.WorkerCtx) {
 	maxN := w.Pick(7, 40)
 	switch w.Batch % 4 {
@@ -1027,6 +1084,7 @@ func c08Worker(w *core.WorkerCtx) {
 		c08TruncateUnderLoad(w)
 		c08DropUnderReaders(w)
 		c08CrossTrafficWhileJoining(w)
+		c08FailedBackgroundTruncation(w)
 		c08AsyncCancel(w)
 	}
 }
